@@ -104,6 +104,7 @@ T_C04_Permanence == [][NotReset => C04_Permanence_Step]_tvars
 T_C03_Credits == [][NotReset => C03_Credits_Step]_tvars
 T_C03_Coins == [][NotReset => C03_Coins_Step]_tvars
 T_C03_PaidInAskDenom == [][NotReset => C03_PaidInAskDenom_Step]_tvars
+T_C03_AskAsRequested == [][NotReset => C03_AskAsRequested_Step]_tvars
 T_C03_Block == [][NotReset => C03_Block_Step]_tvars
 T_C05_PutMints == [][NotReset => C05_PutMints_Step]_tvars
 T_C05_TakeBurns == [][NotReset => C05_TakeBurns_Step]_tvars
